@@ -617,3 +617,25 @@ M("C12", "header-wait-25", SOCK, "            while len(data) < HEADER_SIZE:", "
 M("C12", "header-loop-no-append", SOCK, "            while len(data) < HEADER_SIZE:\n                data += self._recv(256)", "            while len(data) < HEADER_SIZE:\n                self._recv(256)", ["D12.6"])
 M("C12", "body-loop-conditional-append", SOCK, "            while len(data) - HEADER_SIZE < data_len:\n                data += self._recv(256)", "            while len(data) - HEADER_SIZE < data_len:\n                chunk = self._recv(256)\n                if len(chunk) > 1:\n                    data += chunk", ["D12.6"])
 T("C12", "header-wait-4", SOCK, "            while len(data) < HEADER_SIZE:", "            while len(data) < 4:")
+
+# witness-folding rules (round of the generic mutation sweep)
+M("C18", "ct-element-count-2", SLC, '            "element_count": 1,\n            "tag": t.group(0),', '            "element_count": 2,\n            "tag": t.group(0),', ["D18.11"])
+M("C18", "bfile-count-default-0", SLC, '            "sub_element": sub_element,\n            "address_field": 3,\n            "element_count": int(element_count) if element_count is not None else 1,', '            "sub_element": sub_element,\n            "address_field": 3,\n            "element_count": int(element_count) if element_count is not None else 0,', ["D18.11"])
+M("C18", "io-position-swapped", SLC, 'position_number = "0" if t.group("position_number") == None else t.group("position_number")', 'position_number = t.group("position_number") if t.group("position_number") == None else "0"', ["D18.11"])
+M("C18", "read-reply-single-as-list", SLC, "            if len(values_list) > 1:", "            if len(values_list) >= 1:", ["D18.12"])
+M("C18", "read-reply-pre-offset", SLC, "unpack_func(data[new_value + 2 : new_value + 2 + data_size])", "unpack_func(data[new_value + 4 : new_value + 4 + data_size])", ["D18.12"])
+M("C18", "write-zero-data-for-true", SLC, '                    _value = bit_mask if value else b"\\x00\\x00"', '                    _value = bit_mask if not value else b"\\x00\\x00"', ["D18.12"])
+M("C18", "read-status-negated", SLC, "        if status is not None:\n            return Tag(_tag[\"tag\"], None, _tag[\"file_type\"], status)\n\n        try:", "        if status is None:\n            return Tag(_tag[\"tag\"], None, _tag[\"file_type\"], status)\n\n        try:", ["D18.13"])
+M("C18", "read-returns-list-for-one", SLC, "        results = [self._read_tag(tag) for tag in addresses]\n\n        if len(results) == 1:", "        results = [self._read_tag(tag) for tag in addresses]\n\n        if len(results) == 2:", ["D18.13"])
+M("C18", "write-body-not-added", SLC, '        request = SendUnitDataRequestPacket(self._sequence)\n        request.add(b"".join(message_request))\n        response = self.send(request)\n\n        status = request_status(response.raw)\n        if status is not None:\n            return Tag(_tag["tag"], None, _tag["file_type"], status)\n\n        return Tag(_tag["tag"], value', '        request = SendUnitDataRequestPacket(self._sequence)\n        response = self.send(request)\n\n        status = request_status(response.raw)\n        if status is not None:\n            return Tag(_tag["tag"], None, _tag["file_type"], status)\n\n        return Tag(_tag["tag"], value', ["D18.13"])
+M("C01", "default-elements-2", LX, "                elements = 1\n                implicit_element = True", "                elements = 2\n                implicit_element = True", ["D1.11"])
+M("C01", "bit-suffix-not-popped", LX, "                bit = int(attrs.pop(-1))", "                bit = int(attrs[-1])", ["D1.11"])
+M("C01", "bool-write-index-not-rebased", LX, 'tag = f"{_tag}[0]" if rw == "r" else f"{_tag}[{idx // 32}]"', 'tag = f"{_tag}[0]" if rw == "r" else f"{_tag}[{idx}]"', ["D1.11"])
+M("C05", "symbol-type-bit12-kept", LX, '                if tag["symbol_type"] & 0b0001_0000_0000_0000:', '                if tag["symbol_type"] & 0b0010_0000_0000_0000:', ["D5.12"])
+M("C05", "dims-shift-12", LX, '            "dim": (raw_tag["symbol_type"] & 0b0110000000000000)\n            >> 13,', '            "dim": (raw_tag["symbol_type"] & 0b0110000000000000)\n            >> 12,', ["D5.11"])
+M("C05", "member-offset-uint", LX, '        member = {"offset": UDINT.decode(stream)}', '        member = {"offset": UINT.decode(stream)}', ["D5.11"])
+M("C06", "bits-not-reversed", DT, "        bools.reverse()\n", "", ["D6.9"])
+M("C06", "stringn-default-charsize-2", DT, "    def encode(cls, value: str, char_size: int = 1) -> bytes:", "    def encode(cls, value: str, char_size: int = 2) -> bytes:", ["D6.9"])
+M("C07", "stringi-lang-2-bytes", DT, 'lang = SHORT_STRING.decode(b"\\x03" + stream.read(3))', 'lang = SHORT_STRING.decode(b"\\x02" + stream.read(2))', ["D7.7"])
+M("C13", "ext-status-word-as-byte", PU, "        elif extended_status_size == 2:\n            extended_status = UINT.decode(stream)", "        elif extended_status_size == 2:\n            extended_status = USINT.decode(stream)", ["D13.8"])
+M("C14", "plc-time-epoch-1971", LX, "datetime.datetime(1970, 1, 1) + datetime.timedelta(", "datetime.datetime(1971, 1, 1) + datetime.timedelta(", ["D14.7"])
